@@ -471,7 +471,8 @@ def r7(run, ctx):
     gc = ctx.fn('circus.config:get_config')
     t = norm_text(gc.node)
     run.check('R7', astq.has_pattern(t, "$v.append(False)") and
-              astq.has_pattern(t, "$v[1] = to_bool($v[1])") and
+              (astq.has_pattern(t, "$v[1] = to_bool($v[1])") or
+               astq.has_pattern(t, "$v = [$v[0], to_bool($v[1])]")) and
               astq.has_pattern(t, "$w['hooks'][$h] = $v"),
               'hooks.NAME = callable[,flag]: flag parsed with to_bool, default False', gc, gc.node,
               'the ignore flag of a configured hook is not parsed as documented')
